@@ -406,7 +406,7 @@ def text_event_key(ev):
     return f"{t}:{_sig(ev.get('in'))}"
 
 
-def text_trace_validate(chk, name, trace_path, what, only=None, max_rounds=12):
+def text_trace_validate(chk, name, trace_path, what, only=None, max_rounds=12, spec_dir=None):
     """TLC validates the events with Trace_Text; on a rejection the event is recorded, every event with the same
     class signature is set aside and validation continues, so that independent defects are all reported."""
     lines = [l for l in open(trace_path) if l.strip()]
@@ -418,7 +418,8 @@ def text_trace_validate(chk, name, trace_path, what, only=None, max_rounds=12):
     for rnd in range(max_rounds):
         tp = trace_path + f".round"
         open(tp, "w").write("".join(lines))
-        r = tlc("Trace_Text", os.path.join(SPEC, "Trace_Text.cfg"), f"{name}_r{rnd}", workers=1, env={"TRACE": tp}, timeout=1800, trace_mode=True)
+        r = tlc("Trace_Text", os.path.join(spec_dir or SPEC, "Trace_Text.cfg"), f"{name}_r{rnd}", workers=1, env={"TRACE": tp}, timeout=1800,
+                trace_mode=True, spec_dir=spec_dir)
         chk.add_tlc(f"{name}_r{rnd}", r)
         if r.ok:
             break
@@ -503,7 +504,23 @@ def check_C10(chk):
                 "orders, ^^ / ^8 / BOM-looking prefixes) and all strings up to the bound over a 13-class alphabet; to_lossy_string must equal "
                 "CpDecode on defined bytes and to_lossy_bytes is accepted by postcondition (CpDecode(bytes) = text with '?' for characters in no "
                 "page; ASCII byte for byte); random text and bytes for totality.", maxlen=4 if chk.tier == "thorough" else 3)
-    chk.assumptions += ["'LFS's tables' = Microsoft's tables as shipped in python's cp125x/cp932/cp936/cp949/cp950 codecs; double-byte pages are sampled"]
+    # the complete double-byte tables (every pair on which the family's independent tables agree): generated at check time,
+    # LfsText / Trace_Text are evaluated against them in a scratch copy of the specification directory
+    import shutil, subprocess
+    full = os.path.join(WORK, "spec_full")
+    os.makedirs(full, exist_ok=True)
+    with open(os.path.join(full, "LfsCodepages.tla"), "w") as f:
+        p = subprocess.run(["python3", os.path.join(VERIF, "bin", "gen_codepages.py"), "--full", full], stdout=f, stderr=subprocess.PIPE, text=True)
+    if p.returncode != 0:
+        raise ToolError("gen_codepages.py --full failed: " + p.stderr[-500:])
+    for m in ("LfsText.tla", "Trace_Text.tla", "Trace_Text.cfg"):
+        shutil.copyfile(os.path.join(SPEC, m), os.path.join(full, m))
+    tp = os.path.join(WORK, "c10_dbcs.ndjson")
+    out = harness(["text-dbcs", "--table", os.path.join(full, "dbcs_full.json"), "--out", tp])
+    chk.extra["dbcs_full"] = json.loads(out.strip().splitlines()[-1])
+    text_trace_validate(chk, "c10_dbcs", tp, "complete double-byte tables", only={"CpEnc", "CpDec", "Panic"}, spec_dir=full)
+    chk.assumptions += ["'LFS's tables' = Microsoft's tables as shipped in python's cp125x/cp932/cp936/cp949/cp950 codecs; a double-byte pair is "
+                        "constrained only if the family's independent tables (shift_jis; gbk, gb18030; euc_kr; big5, big5hkscs) agree on it"]
 
 
 def check_C11(chk):
